@@ -19,6 +19,8 @@ RULE = (
     'Every 60th case runs 2-4 OS threads that each execute such programs at the same time '
     '(switch interval 1 us), every simulation judged by the same monitors'
 )
+RULE = RULE + (' Further scenario families (every 20th-40th case): waits woken 700-2500 times before they hold, wide and deep programs (blocks nested up to 150 levels, 700 children failing at once), environments of the SimPy-style layer embedded with abandoned entering, arguments at the ends of the float range; probe monitors for activations that spin (function calls) or that resume through an ever longer chain of awaits.')
+
 LEVEL_TEXT = (
     'Fault enumeration by runtime monitoring: thousands of random valid programs over the whole '
     'API are executed on the real kernel; cancellations are injected at activation boundaries '
